@@ -509,6 +509,20 @@ def rule_ambient(c: Ctx) -> RuleResult:
     return r
 
 
+def _expand_args(c: Ctx, f: Func, v: ast.AST, at: ast.AST) -> ast.AST:
+    """v with the single-definition call-free locals in the arguments of its calls inlined (description = token.children)."""
+    import copy
+    from ..interproc import expand
+    v = copy.deepcopy(v)
+    for n in ast.walk(v):
+        if isinstance(n, ast.Call):
+            try:
+                n.args = [expand(c, f, a, at, depth=1) if isinstance(a, ast.Name) else a for a in n.args]
+            except Exception:
+                pass
+    return v
+
+
 def rule_rwrite(c: Ctx) -> RuleResult:
     r = RuleResult("RWRITE", "the renderer's only write to a stream token is the idempotent image alt; scratch tokens do not alias stream attrs")
     rphase = c.cg.render_phase()
@@ -551,9 +565,10 @@ def rule_rwrite(c: Ctx) -> RuleResult:
                     val = cs.node.args[1]
                     if isinstance(val, ast.Name):
                         # a local holding the alt text: inline its (single) definition - calls are kept as they are
-                        vals = [n.value for n in own_nodes(f.node) if isinstance(n, ast.Assign) and any(isinstance(t, ast.Name) and t.id == val.id for t in n.targets)]
+                        vals = [_expand_args(c, f, n.value, n) for n in own_nodes(f.node)
+                                if isinstance(n, ast.Assign) and any(isinstance(t, ast.Name) and t.id == val.id for t in n.targets)]
                     else:
-                        vals = [val]
+                        vals = [_expand_args(c, f, val, cs.node)]
 
                     def alt_ok(v: ast.AST) -> bool:
                         if isinstance(v, ast.Constant):
